@@ -2,6 +2,7 @@ package schema
 
 import (
 	"fmt"
+	"math"
 	"reflect"
 	"strconv"
 )
@@ -113,6 +114,12 @@ func (f FloatSchema) Serialize(d any) (any, error) {
 	data, err := asFloat(d)
 	if err != nil {
 		return data, err
+	}
+	if math.IsNaN(data) && (f.MinValue != nil || f.MaxValue != nil) {
+		// Every comparison with NaN is false, so NaN would slip through both range checks below.
+		return data, &ConstraintError{
+			Message: "NaN is not within the allowed range",
+		}
 	}
 	if f.MinValue != nil && data < *f.MinValue {
 		return data, &ConstraintError{
